@@ -67,3 +67,75 @@ Proof.
   - discriminate.
   - exists wk1. split; [left; reflexivity|]. unfold leaf_df; simpl. discriminate.
 Qed.
+
+(* ---------- dependent inputs: ensembles (any number of members, any interleaving) ---------- *)
+From GTCV Require Import WSGroups.
+
+(* For a real result whose dependent influences have no complex pairing and whose declared
+   correlations join either two infinite-dof inputs or two members of one ensemble (what
+   set_correlation enforces: [ws_ok]), the loop never reaches its assert-False path and
+   returns the total LPU variance and 1/den, where den adds one Welch-Satterthwaite term per
+   independent input, per dependent input without ensemble, and per ENSEMBLE accumulator
+   ([groups_run], a plain list function mirroring cpts_lst / cpts_map) *)
+Theorem C05_ws_real_result :
+  forall (s : KTypes.state R) (o : KTypes.ureal R) c,
+    unode o = NoNode -> is_constant RNum o = false ->
+    leaves_exist s (uc o) -> dfs_positive s (uc o) ->
+    ws_ok s (dc o) -> dfs_ok s (dc o) ->
+    (exists k, (In k (map fst (uc o)) \/ In k (map fst (dc o))) /\ leaf_df s k <> DInf) ->
+    let var := vsum (fun _ u => u * u) (uc o) + vtot s (dc o) in
+    let st := groups_run s (dc o) (rev (map (fun ku => (snd ku * snd ku, leaf_df s (fst ku))) (uc o)), []) in
+    let den := sum_terms var (fst st) + sum_terms var (map snd (snd st)) in
+    welch_satterthwaite RNum s o c =
+    Ok (var, (if Req_EM_T var 0 then DNaN else if Req_EM_T den 0 then DInf else DFin (1 / den)), c).
+Proof. exact ws_real_result. Qed.
+Print Assumptions C05_ws_real_result.
+
+(* each ensemble accumulator holds exactly the sum of the increments of that ensemble (the
+   squared components of its members and the covariance terms of its correlated pairs), with
+   the dof of its first member: "one term per group with its total contribution" *)
+Theorem C05_accumulator_holds_group_total :
+  forall (l : list inc) (m : list (list key * (R * KTypes.dfval R))) E,
+    cmap_lookup (fold_left add_inc l m) E =
+    match cmap_lookup m E with
+    | Some (V, nu) => Some (V + total l E, nu)
+    | None => match first_df l E with Some d => Some (0 + total l E, d) | None => None end
+    end.
+Proof. exact accumulator_holds_total. Qed.
+Print Assumptions C05_accumulator_holds_group_total.
+
+(* non-vacuity: two members of one ensemble (dof 5, r = 1/2), y = x1 + x2: variance 3, dof 5 *)
+Definition ek1 : key := (1%Z, 1%Z).
+Definition ek2 : key := (1%Z, 2%Z).
+Definition estate : KTypes.state R :=
+  mkS 1%Z 2%Z 0%Z
+      [(ek1, mkLeaf 1 (DFin 5) false [(ek1, 1); (ek2, / 2)] 2%nat None None);
+       (ek2, mkLeaf 1 (DFin 5) false [(ek2, 1); (ek1, / 2)] 2%nat None None)]
+      [] [[]; []; [ek1; ek2]] [].
+Definition ey : KTypes.ureal R := mkU 7 [] [(ek1, 1); (ek2, 1)] [] NoNode.
+
+Example C05_groups_nonvacuous :
+  ws_ok estate (dc ey) /\ dfs_ok estate (dc ey) /\
+  welch_satterthwaite RNum estate ey None = Ok (3, DFin 5, None).
+Proof.
+  assert (Hok : ws_ok estate (dc ey)).
+  { cbn [dc ey ws_ok]. split; [eexists; split; reflexivity|]. split.
+    - intros kj uj r Hin Hc. destruct Hin as [H|[]]. injection H as <- <-.
+      split; [eexists; reflexivity|]. right. reflexivity.
+    - split; [eexists; split; reflexivity|]. split; [intros kj uj r []|exact I]. }
+  assert (Hdf : dfs_ok estate (dc ey)).
+  { intros k [<-|[<-|[]]]; unfold leaf_df; simpl; lra. }
+  split; [exact Hok|split; [exact Hdf|]].
+  rewrite (ws_real_result estate ey None eq_refl eq_refl); auto.
+  - cbn [uc dc ey vsum map rev fst snd].
+    unfold vtot, groups_run, covar, leaf_corr, leaf_ens, leaf_df, inner_incs, both_inf, vi; simpl.
+    unfold add_inc; simpl. unfold sum_terms, ws_term; simpl.
+    assert (E1 : 0 + (1 * 1 + (2 * 1 * / 2 * 1 + 0) + (1 * 1 + 0 + 0)) = 3) by lra. rewrite !E1.
+    destruct (Req_EM_T 3 0); [lra|].
+    assert (E2 : 0 + ((0 + 1 * 1 + 2 * 1 * / 2 * 1 + 1 * 1) / 3 * ((0 + 1 * 1 + 2 * 1 * / 2 * 1 + 1 * 1) / 3) / 5 + 0) = / 5) by (field).
+    rewrite !E2. destruct (Req_EM_T (/ 5) 0); [lra|].
+    assert (E3 : 1 / / 5 = 5) by field. rewrite E3. reflexivity.
+  - intros k [].
+  - intros k [].
+  - exists ek1. split; [right; left; reflexivity|]. unfold leaf_df; simpl. discriminate.
+Qed.
